@@ -631,11 +631,64 @@ class AbsInt:
                 return
         self.assign(st, x, ('lin', x, d))
 
+    def _const_trip(self, st, cond, step, body, limit=16):
+        """number of iterations of `for (i = c0; i < C; i++)` / `i <= C` / `i != C` when c0 and C are constants, the body
+        does not assign i, and that number is at most `limit`; else None"""
+        if cond is None or len(step) != 1 or step[0].k != 'assign':
+            return None
+        c = cond
+        while c.k == 'cast':
+            c = c.a[2]
+        if not (c.k == 'bin' and c.a[0] in ('<', '<=', '!=')):
+            return None
+        i = path_of(c.a[1].a[2] if c.a[1].k == 'cast' else c.a[1])
+        hi = self.const_of(c.a[2])
+        if i is None or hi is None or i in _assigned_vars(body):
+            return None
+        sv = step[0]
+        inc = sv.a[1]
+        while inc.k == 'cast':
+            inc = inc.a[2]
+        if not (path_of(sv.a[0]) == i and sv.a[2] == '+=' and inc.k == 'const' and inc.a[0] == 1):
+            return None
+        lo, up = st.bounds(i)
+        if lo != up or abs(lo) >= INF:
+            return None
+        n = int(hi - lo) + (1 if c.a[0] == '<=' else 0)
+        if n < 0 or n > limit:
+            return None
+        # break / continue inside the body are handled by the caller through the block results
+        return n
+
     def loop(self, s, st):
         kind, init, cond, step, body = s.a
         sts, _b1, _c1 = self.block(init, [st])
         st = _joinall(sts)
         assigned = _assigned_vars(body) | _assigned_vars(step)
+        # a counting loop with a constant, small trip count (for (i = 0; i < 4; i++) over a fixed-width field) is walked
+        # iteration by iteration: no widening, so what the body accumulates keeps the bounds it really has
+        trip = self._const_trip(st, cond, step, body)
+        if trip is not None:
+            cur = [st]
+            exits = []
+            for _ in range(trip):
+                t = []
+                for x in cur:
+                    y = x.copy()
+                    self.visit_expr(cond, y)
+                    y = self.guard(y, cond, True)
+                    if not y.bottom:
+                        t.append(y)
+                if not t:
+                    break
+                f, b, c = self.block(body, t)
+                exits.extend(b)
+                cur, _b2, _c2 = self.block(step, f + c)
+            for x in cur:
+                y = self.guard(x.copy(), cond, False)
+                if not y.bottom:
+                    exits.append(y)
+            return _joinall(exits) if exits else _joinall(cur)
         head = st.copy()
         info = {'loc': s.loc, 'assigned': sorted(assigned), 'cond': cond, 'stmt': s}
         rounds = 0
